@@ -15,6 +15,15 @@
     the first successful query of an operation all its later queries succeed
     on the same address; an operation is decided by its first query.
 
+    The core behind the backend is an environment value as well ([env_core]:
+    the instance identified by program_start / nagios_pid of the status row,
+    [env_dset]: the object set it serves; event [ERestart]). The peer remembers
+    the instance whose objects it holds ([core_seen], peer.go programStart /
+    corePid, stored together with the objects at the end of InitAllTables); an
+    update that reads another instance from the status row returns "restart
+    required" before it changes anything (CheckBackendRestarted) and updateLoop
+    runs InitAllTables at once - entered from up (or warning).
+
     [c_fixed] selects the repaired behaviour proposed in notes/C13.md (an
     update that finds the cache dropped under it reports "restart required"
     instead of declaring the peer up); [c_fixed = false] is the pinned code. *)
@@ -60,7 +69,13 @@ Record st := mkSt {
   (* ghost fields, not in the implementation *)
   last_fail : Z;      (* time of the last failure handling *)
   last_sync : Z;      (* time of the last successful synchronisation *)
-  attempts : list nat (* addresses a connection was attempted to, most recent first *)
+  attempts : list nat; (* addresses a connection was attempted to, most recent first *)
+  (* the core behind the backend: [programStart]/[corePid] remembered together with the cached objects *)
+  core_seen : nat;    (* instance of the core whose objects were synchronised last, 0 = none yet *)
+  dset_seen : nat;    (* ghost: identity of the object set that was synchronised last, 0 = none yet *)
+  (* environment: all addresses of the backend serve the same core *)
+  env_core : nat;     (* the instance that is running now (program_start / nagios_pid), >= 1 *)
+  env_dset : nat      (* the object set it serves *)
 }.
 
 Definition srcs (c : cfg) : list nat := seq 0 (c_nsrc c).
@@ -81,12 +96,12 @@ Definition set_next (c : cfg) (L : list nat) (s : st) : st :=
               || ((nall c <? ec)%Z && (last_online s <=? 0)%Z) in
   mkSt (if drop then Down else st1) EFail (last_online s) ec
        (if drop then false else has_data s) (idling s) (last_query s) (last_update s)
-       nxt (nth nxt L 0%nat) (now s) (main_restart s) (now s) (last_sync s) (attempts s).
+       nxt (nth nxt L 0%nat) (now s) (main_restart s) (now s) (last_sync s) (attempts s) (core_seen s) (dset_seen s) (env_core s) (env_dset s).
 
 Definition note_attempt (a : nat) (s : st) : st :=
   mkSt (status s) (lasterr s) (last_online s) (err_count s) (has_data s) (idling s) (last_query s)
        (last_update s) (cur s) (addr s) (now s) (main_restart s) (last_fail s) (last_sync s)
-       (a :: attempts s).
+       (a :: attempts s) (core_seen s) (dset_seen s) (env_core s) (env_dset s).
 
 (** peer.go:1426 tryConnection: at most [length L] dials, each to the current address *)
 Fixpoint try_conn (c : cfg) (n : nat) (L : list nat) (modes : list mode) (s : st) : st * option nat :=
@@ -103,7 +118,7 @@ Fixpoint try_conn (c : cfg) (n : nat) (L : list nat) (modes : list mode) (s : st
 
 Definition set_addr (k a : nat) (s : st) : st :=
   mkSt (status s) (lasterr s) (last_online s) (err_count s) (has_data s) (idling s) (last_query s)
-       (last_update s) k a (now s) (main_restart s) (last_fail s) (last_sync s) (attempts s).
+       (last_update s) k a (now s) (main_restart s) (last_fail s) (last_sync s) (attempts s) (core_seen s) (dset_seen s) (env_core s) (env_dset s).
 
 (** peer.go:1406 GetConnection *)
 Definition get_conn (c : cfg) (modes : list mode) (s : st) : st * option nat :=
@@ -131,37 +146,49 @@ Definition do_query (c : cfg) (modes : list mode) (s : st) : st * bool :=
 (** peer.go:959 resetErrors *)
 Definition reset_errors (s : st) : st :=
   mkSt Up ENone (now s) 0 (has_data s) (idling s) (last_query s) (last_update s)
-       (cur s) (addr s) (now s) (main_restart s) (last_fail s) (now s) (attempts s).
+       (cur s) (addr s) (now s) (main_restart s) (last_fail s) (now s) (attempts s) (core_seen s) (dset_seen s) (env_core s) (env_dset s).
 
 Definition set_last_update (t : Z) (s : st) : st :=
   mkSt (status s) (lasterr s) (last_online s) (err_count s) (has_data s) (idling s) (last_query s)
-       t (cur s) (addr s) (now s) (main_restart s) (last_fail s) (last_sync s) (attempts s).
+       t (cur s) (addr s) (now s) (main_restart s) (last_fail s) (last_sync s) (attempts s) (core_seen s) (dset_seen s) (env_core s) (env_dset s).
 
 Definition set_data (d : bool) (s : st) : st :=
   mkSt (status s) (lasterr s) (last_online s) (err_count s) d (idling s) (last_query s)
-       (last_update s) (cur s) (addr s) (now s) (main_restart s) (last_fail s) (last_sync s) (attempts s).
+       (last_update s) (cur s) (addr s) (now s) (main_restart s) (last_fail s) (last_sync s) (attempts s) (core_seen s) (dset_seen s) (env_core s) (env_dset s).
+
+(** InitAllTables, success: [p.data.Store(data)] together with program_start / nagios_pid of the new status row *)
+Definition store_data (s : st) : st :=
+  mkSt (status s) (lasterr s) (last_online s) (err_count s) true (idling s) (last_query s)
+       (last_update s) (cur s) (addr s) (now s) (main_restart s) (last_fail s) (last_sync s) (attempts s)
+       (env_core s) (env_dset s) (env_core s) (env_dset s).
+
+(** environment: the core behind the (reachable or not) backend restarts; [changed]: with another object set *)
+Definition restart (changed : bool) (s : st) : st :=
+  mkSt (status s) (lasterr s) (last_online s) (err_count s) (has_data s) (idling s) (last_query s)
+       (last_update s) (cur s) (addr s) (now s) (main_restart s) (last_fail s) (last_sync s) (attempts s)
+       (core_seen s) (dset_seen s) (S (env_core s)) (if changed then S (env_core s) else env_dset s).
 
 Definition set_idling (i : bool) (s : st) : st :=
   mkSt (status s) (lasterr s) (last_online s) (err_count s) (has_data s) i (last_query s)
-       (last_update s) (cur s) (addr s) (now s) (main_restart s) (last_fail s) (last_sync s) (attempts s).
+       (last_update s) (cur s) (addr s) (now s) (main_restart s) (last_fail s) (last_sync s) (attempts s) (core_seen s) (dset_seen s) (env_core s) (env_dset s).
 
 Definition set_last_query (t : Z) (s : st) : st :=
   mkSt (status s) (lasterr s) (last_online s) (err_count s) (has_data s) (idling s) t
-       (last_update s) (cur s) (addr s) (now s) (main_restart s) (last_fail s) (last_sync s) (attempts s).
+       (last_update s) (cur s) (addr s) (now s) (main_restart s) (last_fail s) (last_sync s) (attempts s) (core_seen s) (dset_seen s) (env_core s) (env_dset s).
 
 (** initTable(status): "got an answer, let clients know we are reconnecting" *)
 Definition mark_syncing (s : st) : st :=
   match status s with
   | Pending | Syncing => s
   | _ => mkSt Syncing EReconnecting (last_online s) (err_count s) (has_data s) (idling s) (last_query s)
-              (last_update s) (cur s) (addr s) (now s) (main_restart s) (last_fail s) (last_sync s) (attempts s)
+              (last_update s) (cur s) (addr s) (now s) (main_restart s) (last_fail s) (last_sync s) (attempts s) (core_seen s) (dset_seen s) (env_core s) (env_dset s)
   end.
 
 (** peer.go:724 InitAllTables; result: success *)
 Definition init_all (c : cfg) (modes : list mode) (s : st) : st * bool :=
   let s := set_last_update (now s) s in
   let (s1, ok) := do_query c modes s in
-  if ok then (reset_errors (set_data true (mark_syncing s1)), true) else (s1, false).
+  if ok then (reset_errors (store_data (mark_syncing s1)), true) else (s1, false).
 
 Inductive ures := UOk | UErr | URestart.
 
@@ -169,7 +196,9 @@ Inductive ures := UOk | UErr | URestart.
 Definition update_delta (c : cfg) (modes : list mode) (s : st) : st * ures :=
   let (s1, ok) := do_query c modes s in
   if ok then
-    if c_fixed c && negb (has_data s1) then (s1, URestart)
+    (* peer.go CheckBackendRestarted on the status row, before anything is updated *)
+    if negb (Nat.eqb (core_seen s1) (env_core s1)) then (s1, URestart)
+    else if c_fixed c && negb (has_data s1) then (s1, URestart)
     else (set_last_update (now s1) (reset_errors s1), UOk)
   else (s1, UErr).
 
@@ -231,14 +260,15 @@ Definition client_query (c : cfg) (modes : list mode) (s : st) : st :=
 
 Definition pass (d : Z) (s : st) : st :=
   mkSt (status s) (lasterr s) (last_online s) (err_count s) (has_data s) (idling s) (last_query s)
-       (last_update s) (cur s) (addr s) (now s + d) (main_restart s) (last_fail s) (last_sync s) (attempts s).
+       (last_update s) (cur s) (addr s) (now s + d) (main_restart s) (last_fail s) (last_sync s) (attempts s) (core_seen s) (dset_seen s) (env_core s) (env_dset s).
 
 Inductive event :=
 | EInit                       (* updateLoop start: InitAllTables *)
 | ESetMode (a : nat) (m : mode)
 | ETick (minute : bool)       (* one periodicUpdate *)
 | EPass (d : Z)               (* d milliseconds pass, d > 0 *)
-| EQuery.                     (* a client data query *)
+| EQuery                      (* a client data query *)
+| ERestart (changed : bool).  (* the core behind the backend restarts: program_start / nagios_pid change *)
 
 Fixpoint set_nth {A} (n : nat) (x : A) (l : list A) : list A :=
   match l, n with
@@ -255,13 +285,14 @@ Definition step (c : cfg) (ms : list mode * st) (e : event) : list mode * st :=
   | ETick minute => (modes, periodic c modes minute s)
   | EPass d => (modes, pass d s)
   | EQuery => (modes, client_query c modes s)
+  | ERestart changed => (modes, restart changed s)
   end.
 
 Definition t0 : Z := 1000000000000.
 
 (** NewPeer *)
 Definition init_st : st :=
-  mkSt Pending EConnecting 0 0 false false 0 0 0%nat 0%nat t0 t0 0 0 [].
+  mkSt Pending EConnecting 0 0 false false 0 0 0%nat 0%nat t0 t0 0 0 [] 0%nat 0%nat 1%nat 1%nat.
 
 Definition run (c : cfg) (modes : list mode) (evs : list event) : list mode * st :=
   fold_left (step c) evs (modes, init_st).
@@ -272,10 +303,18 @@ Record obs := mkObs {
   o_err : bool;      (* last_error non-empty *)
   o_idling : bool;
   o_failed : bool;   (* a data query lists the backend in "failed" (GetDataStore refuses) *)
-  o_addr : nat }.
+  o_addr : nat;
+  o_online : bool;   (* Peer.isOnline: pass-through queries use the backend *)
+  o_bygroup : bool;  (* the hostsbygroup table of the backend is refused ("peer is down") *)
+  o_core : nat;      (* instance (program_start, nagios_pid) in the cached status table, 0 = no data *)
+  o_dset : nat }.    (* object set a hosts query is answered from, 0 = no data *)
+
+Definition is_online (s : st) : bool := match status s with Up | Warning => true | _ => false end.
 
 Definition observe (s : st) : obs :=
-  mkObs (status s) (err_nonempty (lasterr s)) (idling s) (negb (has_data s)) (addr s).
+  mkObs (status s) (err_nonempty (lasterr s)) (idling s) (negb (has_data s)) (addr s)
+        (is_online s) (negb (is_online s && has_data s))
+        (if has_data s then core_seen s else 0%nat) (if has_data s then dset_seen s else 0%nat).
 
 Fixpoint trace (c : cfg) (ms : list mode * st) (evs : list event) : list obs :=
   match evs with
